@@ -350,6 +350,14 @@ func (c *Ctx) ruleGUIDFormat(rule string) {
 			}
 		}
 	}
+	if len(problems) > 0 {
+		for _, sg := range lang {
+			if sg.kind == "var" && (strings.HasPrefix(sg.note, "opaque") || sg.note == "too deep") {
+				c.R.Infof(rule, name(fn), "language", c.Pos(fn.Pos()), "not decided for this shape: the text is assembled in a way the string evaluator does not follow [language: "+langString(lang)+"]")
+				return
+			}
+		}
+	}
 	c.R.Check(len(problems) == 0, rule, name(fn), "language", c.Pos(fn.Pos()),
 		"GUID text is the canonical 36-character lower-case form 8-4-4-4-12 over Data1, Data2, Data3, Data4[0:2], Data4[2:8]",
 		strings.Join(problems, "; ")+" [language: "+langString(lang)+"]")
